@@ -127,7 +127,7 @@ def qpdf3(p):
         dst = "%s.r%d" % (p, g)
         rc, so, se = common.run_qpdf(PLAIN + [src, dst])
         rcs.append(rc)
-        if rc != 0 or not os.path.exists(dst):
+        if rc not in (0, 3) or not os.path.exists(dst):      # 3 = warnings, the output was written
             break
         src = dst
     return rcs
@@ -173,15 +173,16 @@ def run_part(chk, wd, runner, n_docs=None):
     flags = {"wf0": 0, "wf1": 0, "nf1": 0, "nf2": 0, "same_doc": 0, "norm1": 0, "norm2": 0}
     for (name, p, mode, what), mo, rc in zip(cases, mres, rcs):
         case = {"input": p, "way_into_the_model": mode, "aimed_at": what, "command": "qpdf " + " ".join(PLAIN) + " in out (three times)"}
+        if len(rc) == 3 and rc[2] in (0, 3):
+            r = [open("%s.r%d" % (p, g), "rb").read() for g in (1, 2, 3)]
+            # specification: the fixpoint clause itself, judged on the real outputs only
+            if r[1] != r[2]:
+                chk.violation(dict(case, kind="property-fails-on-implementation", why="generation 2 and generation 3 differ in the plain mode",
+                                   qpdf_exit=rc, **first_diff(r[1], r[2])), signature="fx-plain:gen2!=gen3")
+                continue
         if rc != [0, 0, 0]:
             if mo.startswith("ok"):
-                corr.append(dict(case, qpdf_exit=rc, model=mo[:120]))
-            continue
-        r = [open("%s.r%d" % (p, g), "rb").read() for g in (1, 2, 3)]
-        # specification: the fixpoint clause itself, judged on the real outputs only
-        if r[1] != r[2]:
-            chk.violation(dict(case, kind="property-fails-on-implementation", why="generation 2 and generation 3 differ in the plain mode",
-                               **first_diff(r[1], r[2])), signature="fx-plain:gen2!=gen3")
+                corr.append(dict(case, qpdf_exit=rc, model=mo[:120], note="qpdf failed or warned on a generated input or on its own output"))
             continue
         if not mo.startswith("ok"):
             corr.append(dict(case, model=mo[:200], note="the model's strict reader refused a generation that qpdf read"))
